@@ -18,10 +18,12 @@ CASE_TIMEOUT = 60
 SHARD = 12
 
 # model parameters: False = the code as it is now; True = after the repair proposed in notes/fixes/
-FIXED_UTMP = False        # notes/fixes/C17-users-field-width.diff
-FIXED_IOPRIO = False      # notes/fixes/C17-ionice-ioclass-range.diff   (Python-level check only)
-FIXED_MNT_UTF8 = False    # notes/fixes/C17-disk-partitions-decode.diff
-FIXED_ETHTOOL = False     # notes/fixes/C17-ethtool-speed-shift.diff
+# (C17_FIXED=utmp,ioprio,mnt,ethtool in the environment flips them for a trial run against a patched copy)
+_FX = set(filter(None, os.environ.get("C17_FIXED", "").split(",")))
+FIXED_UTMP = "utmp" in _FX        # notes/fixes/C17-users-field-width.diff
+FIXED_IOPRIO = "ioprio" in _FX    # notes/fixes/C17-ionice-ioclass-range.diff
+FIXED_MNT_UTF8 = "mnt" in _FX     # notes/fixes/C17-disk-partitions-decode.diff
+FIXED_ETHTOOL = "ethtool" in _FX  # notes/fixes/C17-ethtool-speed-shift.diff
 
 RULE = ("utmp files printed from records (every ut_type incl. negative, pid/time over the int32 range, line/user/host of length "
         "0,1,w-1,w with ASCII / non-UTF-8 / ':0' contents, embedded NULs, junk in the other fields) plus raw files with partial "
@@ -429,6 +431,9 @@ def coq_struct(case, raw):
         m = [raw[0], raw[1]]
         return {"parts": m, "model": None if any(_oom(x) for x in m) else m, "spec": None}
     if k in ("entry", "ionice"):
+        if FIXED_IOPRIO and k == "entry" and case["ep"] == "proc_ioprio_set" and raw.get("t") == "UB":
+            # repaired C code shifts as unsigned: the (wrapped) value reaches the kernel, which answers EINVAL
+            raw = {"t": "Os", "a": [{"t": "ioprio_set", "a": []}, [], {"b": ""}]}
         os_reached = isinstance(raw, dict) and raw.get("t") == "Os"
         return {"cres": raw, "model": None if os_reached else raw, "spec": None}
     if k == "netif":
@@ -468,7 +473,7 @@ def finding_key(case, coq):
             return "mounts-nonutf8-type-opts"
     if k == "entry" and case["ep"] == "proc_ioprio_set" and len(case["args"]) == 3:
         c = case["args"][1]
-        if "i" in c and not (0 <= c["i"] < 2 ** 18):
+        if "i" in c and not (0 <= c["i"] < 2 ** 18) and not FIXED_IOPRIO:
             return "ioprio-shift-overflow"
     if k == "ionice" and not FIXED_IOPRIO and not (0 <= case["ioclass"] < 2 ** 18):
         return "ioprio-shift-overflow"
